@@ -1155,6 +1155,8 @@ impl ElementRaw {
             }
         }
         self.content.clear();
+        // a removed element does not belong to any file
+        self.file_membership.clear();
         self.parent = ElementOrModel::None;
     }
 
